@@ -43,7 +43,9 @@ def const_term(c):
     if "bytes" in c:
         return ("bytes", tuple(c["bytes"]))
     if "array" in c:
-        return ("carray", tuple(c["array"]))
+        def tup(x):
+            return tuple(tup(y) for y in x) if isinstance(x, list) else x
+        return ("carray", tup(c["array"]))
     if "static_ref" in c:
         return ("static", c["static_ref"])
     return ("opaque", str(c))
